@@ -312,6 +312,16 @@ def extract_multiform(repo):
     for needle in ("c_calc[self.integer[term_i], other_operator.integer]", "integer ^ other_operator.integer"):
         if needle not in src:
             raise TranslateError("__mul__: expected `%s`" % needle)
+    # collapse: the sort table [codes | row number] must keep numpy's default integer type (row numbers index `factors`)
+    col = ast.unparse(find_def(tree, "collapse", cls="MultiformOperator"))
+    for needle in ("all_terms = np.concatenate((operator, np.linspace(0, len(operator) - 1, len(operator), dtype=int)"
+                   ".reshape(len(operator), -1)), axis=1)\n",
+                   "sorted_terms = np.array(sorted(all_terms, key=itemgetter(*qubits)))",
+                   "sorted_factors = factors[sorted_terms[:, -1]]",
+                   "unique, inverse = np.unique(sorted_terms[:, :-1], axis=0, return_inverse=True)",
+                   "factors[inverse[index]] += sorted_factors[index]"):
+        if needle not in col:
+            raise TranslateError("collapse: expected `%s`" % needle.strip())
     init = find_def(tree, "__init__", cls="ConvertPauli")
     asg = [n for n in ast.walk(init) if isinstance(n, ast.Assign) and _is_name(n.targets[0], "pauli_translation")]
     if len(asg) != 1 or not isinstance(asg[0].value, ast.List):
